@@ -11,6 +11,7 @@ func init() {
 	replayers["(*Raft).persistVote"] = replayPersistVote
 	replayers["(*commitment).recalculate"] = replayRecalculate
 	replayers["(*Raft).verifyLeader"] = replayVerifyLeader
+	replayers["(*Raft).appendEntries"] = replayAppendEntries
 }
 
 func mInt(m map[string]string, k string, def int64) int64 {
@@ -224,6 +225,75 @@ func TestGovcReplay(t *testing.T) {
 			repl.notifyAll(true)
 			t.Fatalf("registered_only_with_voters violated: the verify request is registered with non-voter %q; after only that non-voter acknowledged: votes=%d quorumSize=%d (quorum reached: %v)", id, v.votes, v.quorumSize, int(v.votes) >= v.quorumSize)
 		}
+	}
+}
+`
+	return "TestGovcReplay", test, true
+}
+
+// appendEntries: scenario for the cached-tail clause - a truncation followed by a failing StoreLogs.
+func replayAppendEntries(m map[string]string, o *Oblig) (string, string, bool) {
+	if !strings.Contains(o.Name, "tail_consistent") {
+		return "", "", false
+	}
+	test := `package raft
+
+import (
+	"errors"
+	"testing"
+)
+
+type govcFailStoreLogs struct {
+	LogStore
+	fail bool
+}
+
+func (s *govcFailStoreLogs) StoreLogs(logs []*Log) error {
+	if s.fail {
+		return errors.New("injected log-store failure")
+	}
+	return s.LogStore.StoreLogs(logs)
+}
+
+func TestGovcReplay(t *testing.T) {
+	inner := NewInmemStore()
+	shim := &govcFailStoreLogs{LogStore: inner}
+	conf := DefaultConfig()
+	conf.LocalID = "me"
+	conf.skipStartup = true
+	_, trans := NewInmemTransport("me")
+	r, err := NewRaft(conf, &MockFSM{}, shim, inner, NewInmemSnapshotStore(), trans)
+	if err != nil {
+		t.Fatal(err)
+	}
+	// follower log: 1..10, entries 1-5 in term 1, 6-10 in term 2
+	var logs []*Log
+	for i := uint64(1); i <= 10; i++ {
+		term := uint64(1)
+		if i > 5 {
+			term = 2
+		}
+		logs = append(logs, &Log{Index: i, Term: term, Type: LogNoop})
+	}
+	if err := inner.StoreLogs(logs); err != nil {
+		t.Fatal(err)
+	}
+	r.setLastLog(10, 2)
+	r.setCurrentTerm(3)
+	// leader of term 3 sends (prev = 5/1) entries 6,7 of term 3: conflict at 6, the suffix 6..10 is deleted, then the write fails
+	shim.fail = true
+	req := &AppendEntriesRequest{RPCHeader: RPCHeader{ProtocolVersion: ProtocolVersionMax, ID: []byte("ldr"), Addr: []byte("ldr")}, Term: 3, PrevLogEntry: 5, PrevLogTerm: 1,
+		Entries: []*Log{{Index: 6, Term: 3, Type: LogNoop}, {Index: 7, Term: 3, Type: LogNoop}}}
+	respCh := make(chan RPCResponse, 1)
+	rpc := RPC{Command: req, RespChan: respCh}
+	r.appendEntries(rpc, req)
+	resp := (<-respCh).Response.(*AppendEntriesResponse)
+	li, lt := r.getLastLog()
+	storeLast, _ := inner.LastIndex()
+	t.Logf("success=%v cached tail=%d/%d store tail=%d", resp.Success, li, lt, storeLast)
+	var l Log
+	if li > 0 && inner.GetLog(li, &l) != nil {
+		t.Fatalf("tail_consistent violated: the cached last log %d/%d names an entry the store no longer holds (store tail %d)", li, lt, storeLast)
 	}
 }
 `
